@@ -20,9 +20,9 @@
 (*                          (references through retrieve_entity),          *)
 (*                          absent -> remove                               *)
 (*                                                                         *)
-(* Entities are handles <<index, generation>> with the lowest free index   *)
-(* reused first (so a stale mapping can point at an index that now belongs *)
-(* to somebody else).  Every operation yields the event the harness would  *)
+(* Entities are handles <<index, generation>>; the index freed last is      *)
+(* reused first, as in the entity allocator (so a stale mapping can point   *)
+(* at an index that now belongs to somebody else).  Every operation yields the event the harness would  *)
 (* record (complete world content), and Marker_MC feeds it to              *)
 (* SaveLoad_L0!Step: TLC checks "L1 => L0" for every history in scope.     *)
 (***************************************************************************)
@@ -35,6 +35,8 @@ Idx == 0..(MaxIdx - 1)
 
 Init0 == [ ents |-> <<>>,                 \* handle -> <<m, a, b, r>>
            gen  |-> [i \in Idx |-> 0],    \* last generation used on an index
+           free |-> <<>>,                 \* the entity allocator's free list (the index freed last is reused first)
+           next |-> 0,                    \* next never-used index
            ctr  |-> 0,
            map  |-> <<>> ]                \* id -> handle
 
@@ -56,11 +58,14 @@ Obs(st) == LET o == SortedById(DOMAIN st.ents) IN
 Free(st) == {i \in Idx : \A h \in DOMAIN st.ents : h[1] # i}
 CanCreate(st) == Free(st) # {}
 
-\* creation: lowest free index, next generation
+\* creation: the index freed last if there is one, else the next never-used index; next generation
 Create(st) ==
-  LET i == CHOOSE x \in Free(st) : \A y \in Free(st) : x <= y
+  LET fromList == st.free # <<>>
+      i == IF fromList THEN st.free[Len(st.free)] ELSE st.next
       h == <<i, st.gen[i] + 1>>
-  IN [st |-> [st EXCEPT !.ents = FnSet(st.ents, h, <<None, None, None, None>>), !.gen[i] = @ + 1], h |-> h]
+  IN [st |-> [st EXCEPT !.ents = FnSet(st.ents, h, <<None, None, None, None>>), !.gen[i] = @ + 1,
+                        !.free = IF fromList THEN SubSeq(@, 1, Len(@) - 1) ELSE @,
+                        !.next = IF fromList THEN @ ELSE @ + 1], h |-> h]
 
 Allocate(st, e, id, given) ==
   LET m == IF given THEN id ELSE st.ctr
@@ -123,7 +128,8 @@ Exec(st, op) ==
                   st2 == [a.st EXCEPT !.ents[h] = <<<<a.m>>, @[2], @[3], @[4]>>]
               IN [st |-> st2, ev |-> Ev(st2, [op |-> "Mark", h |-> h, res |-> <<a.m>>, new |-> TRUE])]
     [] op.o = "delete" ->
-         LET st2 == [st EXCEPT !.ents = FnDel(st.ents, {op.h})] IN
+         LET st2 == [st EXCEPT !.ents = FnDel(st.ents, {op.h}),
+                               !.free = IF op.h \in DOMAIN st.ents THEN Append(@, op.h[1]) ELSE @] IN
          [st |-> st2, ev |-> Ev(st2, [op |-> "Delete", h |-> op.h])]
     [] op.o = "setr" ->
          IF op.h \notin DOMAIN st.ents THEN [st |-> st, ev |-> Ev(st, [op |-> "Set", h |-> op.h, c |-> "r", v |-> op.v])]
